@@ -1088,7 +1088,7 @@ func (prop) Execute(scAny any, phase string, log *core.Log) core.Result {
 	}
 	// both objects, after everything that was done to them, seen through the
 	// rest of the public API: like freshly built objects of their values
-	for w := 0; w < 2; w++ {
+	for w := 0; w < 2 && (len(s.Prog[0])+len(s.Prog[1])+len(s.Pre))%3 == 0; w++ { // (one run in three: the comparison costs several encodes)
 		if d := mgeom.TwinDiff(owners[w].g); d != "" {
 			res.Fail("clone-differs", "views-differ:"+s.Kind, "owner %d's object at the end of the programs: %s", w, d)
 			return res
